@@ -1,4 +1,6 @@
 import Proofs.StreamSim
+import Proofs.StreamEq
+import Proofs.Gram
 /-!
 # C09 — SMF reading does not depend on how the source delivers its bytes
 
@@ -38,6 +40,24 @@ theorem source_makes_progress (s : Src) (k : Nat) (hf : s.fault = none) (hh : s.
     1 ≤ (s.read k).1.length ∧ (s.read k).1.length ≤ k ∧ (s.read k).1 ++ (s.read k).2.2.data = s.data := by
   obtain ⟨got, e, s', hr, p1, p2, p3, _⟩ := read_progress s k hf hh hk hd
   rw [hr]; exact ⟨p1, p2, p3⟩
+
+/-- the program reader over in-memory bytes IS the in-memory reader model of C01/C02/C05
+    (`Smf.readFrom`): the two models of `smf.ReadFrom` agree on every byte string -/
+theorem program_reader_is_list_reader (data : Bytes) (fuel : Nat) (hf : data.length + 2 ≤ fuel) :
+    (run listOps (Stream.readFrom fuel) data).1 = .ok (cvRes (Smf.readFrom data)) :=
+  readFrom_eq data fuel hf
+
+/-- hence: reading through ANY fragmenting source gives what the in-memory reader model gives -/
+theorem frag_reads_like_memory_model (data : Bytes) (cuts : List Nat) (eofWithData : Bool) :
+    (run srcOps (Stream.readFrom (data.length + 2)) ⟨data, 0, cuts, eofWithData, none, false⟩).1
+      = .ok (cvRes (Smf.readFrom data)) := by
+  rw [frag_indep]; exact readFrom_eq data _ (Nat.le_refl _)
+
+/-- and with C02: a valid SMF 1.0 file read through any fragmenting source decodes to its specified meaning -/
+theorem frag_conforms (g : Gram.GFile) (h : g.Valid) (cuts : List Nat) (eofWithData : Bool) :
+    (run srcOps (Stream.readFrom ((Gram.serialize g).length + 2)) ⟨Gram.serialize g, 0, cuts, eofWithData, none, false⟩).1
+      = .ok (.ok (Gram.meaning g)) := by
+  rw [frag_reads_like_memory_model, Gram.readFrom_serialize g h]; rfl
 
 /-! Non-vacuity: a one-byte-per-call source with data+EOF reads a small file like the in-memory reader. -/
 def sampleFile : Bytes :=
